@@ -618,7 +618,7 @@ func TestVerif_C07(t *testing.T) {
 		"a rejection is required only when the closure of the new root (or a reference of an added file) is missing; when a dangling chunk sits in the memtable but is unreachable from the root either outcome is accepted",
 		"chunks flushed but not committed may or may not survive close+reopen, and may become visible again later (a journal keeps un-rooted chunk records and attaches them with the next commit): while such a chunk is invisible, predictions that depend on it are suspended in both directions; committed chunks must survive")
 	defer rec.Write(t)
-	vh.Check(t, "closure", 500, 1500, func(rt *rapid.T) { c07Case(rt, rec) })
+	vh.Check(t, "closure", 500, 1200, func(rt *rapid.T) { c07Case(rt, rec) })
 	t.Run("pinned_table_file_ref_only_in_memtable", c07PinnedMemOnly)
 }
 
